@@ -27,7 +27,7 @@ PROPERTIES_V = 'theories/C10/Properties.v'
 IMPORTS = 'Require Import FV.Base.F64 FV.Base.PyVal FV.C01.Model FV.Gen.C10 FV.C10.Model FV.C10.Run.'
 CASE_TYPE = 'case'
 CHECK = 'check_case'
-SHARD_SIZE = 120
+SHARD_SIZE = 70
 RULE = ('1..2 generated module classes (2..6 accessibles out of value/target/p1..p3/opt1/cmd with datatypes float, int, '
         'scaled, bool, enum, string, array of int/float, struct; class-level default/value/needscfg/readonly/export/'
         'visibility/group/missing description; read/write driver methods; optional custom mandatory module property) x '
@@ -933,7 +933,7 @@ def gen_case(rng):
 
 def gen_cases(seed, tier):
     rng = random.Random(seed * 7919 + 10)
-    n = {'quick': 2600, 'thorough': 30000, 'search': 12000}.get(tier, 2600)
+    n = {'quick': 2200, 'thorough': 30000, 'search': 12000}.get(tier, 2600)
     return [gen_case(rng) for _ in range(n)]
 
 
